@@ -90,10 +90,21 @@ def build(gj, idm: IdMap):
         g.set_atom_stereo(mk_descr(dj, idm))
     for a, b, dj in gj["bst"]:
         g.set_bond_stereo(mk_descr(dj, idm))
+    import json as _json
+
+    def shared(chg):      # equal descriptors under two roles are ONE object (as a caller would naturally write)
+        made = {}
+        out = {}
+        for c, dj in chg:
+            k = _json.dumps(dj)
+            if k not in made:
+                made[k] = mk_descr(dj, idm)
+            out[c] = made[k]
+        return out
     for a, chg in gj["ach"]:
-        g.set_atom_stereo_change(**{c: mk_descr(dj, idm) for c, dj in chg})
+        g.set_atom_stereo_change(**shared(chg))
     for a, b, chg in gj["bch"]:
-        g.set_bond_stereo_change(**{c: mk_descr(dj, idm) for c, dj in chg})
+        g.set_bond_stereo_change(**shared(chg))
     return g
 
 
